@@ -368,13 +368,21 @@ impl ActionsGenerator for ProductionActionsGenerator<'_> {
                                     let mut a_i = format_ident!("{}", a.name);
                                     let mut b_i = format_ident!("{}", b.name);
                                     // Find which one is a vector
-                                    if b.ref_type == nonterminal.name {
+                                    let right_recursive = b.ref_type == nonterminal.name;
+                                    if right_recursive {
                                         (a_i, b_i) = (b_i, a_i)
                                     }
-                                    body.push(if recursive.get() {
-                                        parse_quote! { #a_i.push(Box::new(#b_i)) }
+                                    let elem: syn::Expr = if recursive.get() {
+                                        parse_quote! { Box::new(#b_i) }
                                     } else {
-                                        parse_quote! { #a_i.push(#b_i) }
+                                        parse_quote! { #b_i }
+                                    };
+                                    body.push(if right_recursive {
+                                        // The element precedes the rest of the
+                                        // sequence in the input.
+                                        parse_quote! { #a_i.insert(0, #elem) }
+                                    } else {
+                                        parse_quote! { #a_i.push(#elem) }
                                     });
                                     body.push(parse_quote! { #a_i });
                                 }
